@@ -316,56 +316,341 @@ theorem synced_same_links (arity : Nat) (rm1 rm2 : RoleMgr String) (rules : List
 
 /-! ### Every history of single additions / removals, and what an explicit rebuild then does -/
 
-/-- single management calls, on permission rules and on grouping rules -/
+/-! ### The batch and filtered operations -/
+
+theorem linkUpdate_nochange (x : Enforcer) (sec pt : String) (ins : Bool) (rules : List Rule) (ret : Res) :
+    (x.linkUpdate false sec pt ins rules ret).1 = x := by
+  unfold Enforcer.linkUpdate; simp
+
+theorem linkUpdate_p (x : Enforcer) (c : Bool) (pt : String) (ins : Bool) (rules : List Rule) (ret : Res) :
+    (x.linkUpdate c "p" pt ins rules ret).1 = x := by
+  unfold Enforcer.linkUpdate; simp
+
+theorem gsync_emit (x : Enforcer) (ev : Event) (h : GSync x) : GSync (x.emit ev) := by
+  unfold GSync at *
+  rw [(emit_rm_store _ _).1, (emit_rm_store _ _).2.1]; exact h
+
+/-- the store now holds `pol'` (the old rules and `new`, as a set) and the links of `new` are added -/
+theorem gsync_link_insert (x : Enforcer) (d : PolDef) (ha : d.arity = 2 ∨ d.arity = 3) (hwf : WFRules d.arity d.policy)
+    (hsync : SyncedWith d.arity x.rm d.policy) (hw : x.rm.WF) (hab : x.autoBuild = true)
+    (pol' new : List Rule) (hxg : x.store.g = [{ d with policy := pol' }])
+    (hmem : ∀ r, r ∈ pol' ↔ r ∈ d.policy ++ new) (hnew : WFRules d.arity new) (ret : Res) :
+    GSync (x.linkUpdate true "g" d.key true new ret).1 := by
+  unfold Enforcer.linkUpdate
+  simp only [Bool.not_true, Bool.false_or, ne_eq, not_true_eq_false, decide_false, hab, Bool.false_eq_true, if_false]
+  rw [find_g_single x.store _ hxg d.key]
+  simp only [if_true]
+  obtain ⟨rm', h1, h2, h3⟩ := incr_add_synced d.arity ha x.rm { d with policy := pol' } rfl d.policy new hnew hsync hw
+  rw [h1]
+  refine ⟨{ d with policy := pol' }, hxg, ha, ?_, synced_congr (fun r => (hmem r).symm) h2, h3⟩
+  intro r hr
+  rcases List.mem_append.mp ((hmem r).mp hr) with h | h
+  · exact hwf r h
+  · exact hnew r h
+
+/-- the store now holds `pol'` (the old rules are `pol'` and `removed`, as a set) and the links of `removed`
+are taken out unless a remaining rule still implies them -/
+theorem gsync_link_delete (x : Enforcer) (d : PolDef) (ha : d.arity = 2 ∨ d.arity = 3) (hwf : WFRules d.arity d.policy)
+    (hsync : SyncedWith d.arity x.rm d.policy) (hw : x.rm.WF) (hab : x.autoBuild = true)
+    (pol' removed : List Rule) (hxg : x.store.g = [{ d with policy := pol' }])
+    (hmem : ∀ r, r ∈ d.policy ↔ r ∈ pol' ++ removed) (ret : Res) :
+    GSync (x.linkUpdate true "g" d.key false removed ret).1 := by
+  unfold Enforcer.linkUpdate
+  simp only [Bool.not_true, Bool.false_or, ne_eq, not_true_eq_false, decide_false, hab, Bool.false_eq_true, if_false]
+  rw [find_g_single x.store _ hxg d.key]
+  simp only [if_true]
+  have hwf' : WFRules d.arity pol' := fun r hr => hwf r ((hmem r).mpr (by simp [hr]))
+  have hwfr : WFRules d.arity removed := fun r hr => hwf r ((hmem r).mpr (by simp [hr]))
+  obtain ⟨rm', h1, h2, h3⟩ := incr_remove_synced d.arity ha x.rm { d with policy := pol' } rfl removed hwf' hwfr
+    (synced_congr hmem hsync) hw
+  rw [h1]
+  exact ⟨{ d with policy := pol' }, hxg, ha, hwf', h2, h3⟩
+
+theorem mem_removeAll_keep (vs : List Rule) (s : List Rule) (x : Rule) (hx : x ∈ s) (hn : x ∉ vs) :
+    x ∈ OrdSet.removeAll s vs := by
+  induction vs generalizing s with
+  | nil => simpa [OrdSet.removeAll] using hx
+  | cons v vs ih =>
+    have hxv : x ≠ v := fun h => hn (by simp [h])
+    have hxvs : x ∉ vs := fun h => hn (by simp [h])
+    simp only [OrdSet.removeAll]
+    apply ih _ _ hxvs
+    unfold OrdSet.remove
+    split
+    · show x ∈ @List.erase Rule instBEqOfDecidableEq s v
+      rw [erase_inst_irrel]
+      exact (List.mem_erase_of_ne hxv).mpr hx
+    · exact hx
+
+/-- removing rules that are all stored: the old rules are the remaining ones and the removed ones -/
+theorem mem_removeAll_split (s vs : List Rule) (hsub : ∀ v ∈ vs, v ∈ s) (x : Rule) :
+    x ∈ s ↔ x ∈ OrdSet.removeAll s vs ++ vs := by
+  rw [List.mem_append]
+  constructor
+  · intro hx
+    by_cases hv : x ∈ vs
+    · exact Or.inr hv
+    · exact Or.inl (mem_removeAll_keep vs s x hx hv)
+  · rintro (h | h)
+    · exact (OrdSet.removeAll_sublist s vs).subset h
+    · exact hsub x h
+
+theorem mem_filter_split (s : List Rule) (p : Rule → Bool) (x : Rule) :
+    x ∈ s ↔ x ∈ s.filter (fun r => !p r) ++ s.filter p := by
+  rw [List.mem_append, List.mem_filter, List.mem_filter]
+  constructor
+  · intro hx
+    by_cases hp : p x = true
+    · exact Or.inr ⟨hx, hp⟩
+    · exact Or.inl ⟨hx, by simpa using hp⟩
+  · rintro (h | h) <;> exact h.1
+
+/-- `add_policies_internal("g", key, rules)`: all-or-nothing — if some rule is already stored nothing changes,
+otherwise every rule is stored (a rule listed twice once) and the links of all of them are added -/
+theorem gsync_addMany_g (e : Enforcer) (h : GSync e) (hs : e.autoSave = false) (hb : e.autoBuild = true)
+    (pt : String) (rules : List Rule) (hlen : ∀ d, e.store.g = [d] → ∀ r ∈ rules, d.arity ≤ r.length) :
+    GSync (e.addPolicies "g" pt rules).1 := by
+  obtain ⟨d, hg, ha, hwf, hsync, hw⟩ := h
+  unfold Enforcer.addPolicies
+  simp only [hs, Bool.false_eq_true, if_false]
+  unfold Store.addPolicies
+  rw [find_g_single e.store d hg pt]
+  by_cases hk : d.key = pt
+  · subst hk
+    simp only [if_true]
+    by_cases hany : rules.any (fun r => decide (r ∈ d.policy)) = true
+    · simp only [hany, if_true, Bool.false_and, Bool.false_eq_true, if_false]
+      rw [linkUpdate_nochange]
+      exact ⟨d, hg, ha, hwf, hsync, hw⟩
+    · simp only [hany, Bool.false_eq_true, if_false, Bool.true_and]
+      have hg' : (e.store.update "g" d.key (fun d => { d with policy := OrdSet.addAll d.policy rules })).g =
+          [{ d with policy := OrdSet.addAll d.policy rules }] := update_g_single e.store d hg _
+      have hmem : ∀ r, r ∈ OrdSet.addAll d.policy rules ↔ r ∈ d.policy ++ rules := by
+        intro r; rw [OrdSet.addAll_mem, List.mem_append]
+      split
+      · apply gsync_link_insert _ d ha hwf _ _ _ (OrdSet.addAll d.policy rules) rules _ hmem (hlen d hg)
+        · rw [(emit_rm_store _ _).1]; exact hsync
+        · rw [(emit_rm_store _ _).1]; exact hw
+        · rw [(emit_rm_store _ _).2.2]; exact hb
+        · rw [(emit_rm_store _ _).2.1]; exact hg'
+      · apply gsync_link_insert _ d ha hwf _ _ _ (OrdSet.addAll d.policy rules) rules _ hmem (hlen d hg)
+        · exact hsync
+        · exact hw
+        · exact hb
+        · exact hg'
+  · simp only [hk, if_false, Bool.false_and, Bool.false_eq_true]
+    rw [linkUpdate_nochange]
+    exact ⟨d, hg, ha, hwf, hsync, hw⟩
+
+/-- `remove_policies_internal("g", key, rules)`: all-or-nothing — if some rule is not stored nothing changes,
+otherwise all are removed (a rule listed twice is removed once, the call still succeeds) and their links are
+taken out unless a remaining rule implies them -/
+theorem gsync_removeMany_g (e : Enforcer) (h : GSync e) (hs : e.autoSave = false) (hb : e.autoBuild = true)
+    (pt : String) (rules : List Rule) :
+    GSync (e.removePolicies "g" pt rules).1 := by
+  obtain ⟨d, hg, ha, hwf, hsync, hw⟩ := h
+  unfold Enforcer.removePolicies
+  simp only [hs, Bool.false_eq_true, if_false]
+  unfold Store.removePolicies
+  rw [find_g_single e.store d hg pt]
+  by_cases hk : d.key = pt
+  · subst hk
+    simp only [if_true]
+    by_cases hany : rules.any (fun r => decide (r ∉ d.policy)) = true
+    · simp only [hany, if_true, Bool.false_and, Bool.false_eq_true, if_false]
+      rw [linkUpdate_nochange]
+      exact ⟨d, hg, ha, hwf, hsync, hw⟩
+    · simp only [hany, Bool.false_eq_true, if_false, Bool.true_and]
+      have hsub : ∀ v ∈ rules, v ∈ d.policy := by
+        intro v hv
+        by_cases hc : v ∈ d.policy
+        · exact hc
+        · exact absurd (List.any_eq_true.mpr ⟨v, hv, by simpa using hc⟩) hany
+      have hg' : (e.store.update "g" d.key (fun d => { d with policy := OrdSet.removeAll d.policy rules })).g =
+          [{ d with policy := OrdSet.removeAll d.policy rules }] := update_g_single e.store d hg _
+      have hmem := mem_removeAll_split d.policy rules hsub
+      split
+      · apply gsync_link_delete _ d ha hwf _ _ _ (OrdSet.removeAll d.policy rules) rules _ hmem
+        · rw [(emit_rm_store _ _).1]; exact hsync
+        · rw [(emit_rm_store _ _).1]; exact hw
+        · rw [(emit_rm_store _ _).2.2]; exact hb
+        · rw [(emit_rm_store _ _).2.1]; exact hg'
+      · apply gsync_link_delete _ d ha hwf _ _ _ (OrdSet.removeAll d.policy rules) rules _ hmem
+        · exact hsync
+        · exact hw
+        · exact hb
+        · exact hg'
+  · simp only [hk, if_false, Bool.false_and, Bool.false_eq_true]
+    rw [linkUpdate_nochange]
+    exact ⟨d, hg, ha, hwf, hsync, hw⟩
+
+/-- `remove_filtered_policy_internal("g", key, index, values)`: the rules the filter selects are removed and
+their links taken out unless a remaining rule implies them; an empty filter or one selecting nothing changes
+nothing -/
+theorem gsync_removeFiltered_g (e : Enforcer) (h : GSync e) (hs : e.autoSave = false) (hb : e.autoBuild = true)
+    (pt : String) (idx : Nat) (vals : List String) :
+    GSync (e.removeFiltered "g" pt idx vals).1 := by
+  obtain ⟨d, hg, ha, hwf, hsync, hw⟩ := h
+  unfold Enforcer.removeFiltered
+  simp only [hs, Bool.false_eq_true, if_false]
+  unfold Store.removeFiltered
+  by_cases hve : vals.isEmpty = true
+  · simp only [hve, if_true, Bool.false_and, Bool.false_eq_true, if_false]
+    rw [linkUpdate_nochange]
+    exact ⟨d, hg, ha, hwf, hsync, hw⟩
+  · simp only [hve, Bool.false_eq_true, if_false]
+    rw [find_g_single e.store d hg pt]
+    by_cases hk : d.key = pt
+    · subst hk
+      simp only [if_true]
+      by_cases hem : (d.policy.filter (filterMatch idx vals)).isEmpty = true
+      · simp only [hem, if_true, Bool.false_and, Bool.false_eq_true, if_false]
+        rw [linkUpdate_nochange]
+        exact ⟨d, hg, ha, hwf, hsync, hw⟩
+      · simp only [hem, Bool.false_eq_true, if_false, Bool.true_and]
+        have hg' : (e.store.update "g" d.key
+            (fun d => { d with policy := d.policy.filter (fun r => !filterMatch idx vals r) })).g =
+            [{ d with policy := d.policy.filter (fun r => !filterMatch idx vals r) }] := update_g_single e.store d hg _
+        have hmem := mem_filter_split d.policy (filterMatch idx vals)
+        split
+        · apply gsync_link_delete _ d ha hwf _ _ _ _ _ _ hmem
+          · rw [(emit_rm_store _ _).1]; exact hsync
+          · rw [(emit_rm_store _ _).1]; exact hw
+          · rw [(emit_rm_store _ _).2.2]; exact hb
+          · rw [(emit_rm_store _ _).2.1]; exact hg'
+        · apply gsync_link_delete _ d ha hwf _ _ _ _ _ _ hmem
+          · exact hsync
+          · exact hw
+          · exact hb
+          · exact hg'
+    · simp only [hk, if_false, Bool.false_and, Bool.false_eq_true]
+      rw [linkUpdate_nochange]
+      exact ⟨d, hg, ha, hwf, hsync, hw⟩
+
+/-- batch and filtered calls on permission rules never touch the graph -/
+theorem gsync_batch_p (e : Enforcer) (h : GSync e) (hs : e.autoSave = false) (pt : String) (rules : List Rule)
+    (idx : Nat) (vals : List String) :
+    GSync (e.addPolicies "p" pt rules).1 ∧ GSync (e.removePolicies "p" pt rules).1 ∧
+    GSync (e.removeFiltered "p" pt idx vals).1 := by
+  have hgs : ∀ (x : Enforcer) (s' : Store), s'.g = x.store.g → GSync x → GSync { x with store := s' } := by
+    intro x s' hs' hx
+    obtain ⟨d, hg, ha, hwf, hsync, hw⟩ := hx
+    exact ⟨d, by simpa [hs'] using hg, ha, hwf, hsync, hw⟩
+  refine ⟨?_, ?_, ?_⟩
+  · unfold Enforcer.addPolicies
+    simp only [hs, Bool.false_eq_true, if_false]
+    rw [linkUpdate_p]
+    have hg1 : (e.store.addPolicies "p" pt rules).1.g = e.store.g := by
+      unfold Store.addPolicies
+      cases e.store.find "p" pt with
+      | none => rfl
+      | some _ => simp only []; split
+                  · rfl
+                  · exact update_p_keeps_g _ _ _
+    split
+    · exact gsync_emit _ _ (hgs e _ hg1 h)
+    · exact hgs e _ hg1 h
+  · unfold Enforcer.removePolicies
+    simp only [hs, Bool.false_eq_true, if_false]
+    rw [linkUpdate_p]
+    have hg1 : (e.store.removePolicies "p" pt rules).1.g = e.store.g := by
+      unfold Store.removePolicies
+      cases e.store.find "p" pt with
+      | none => rfl
+      | some _ => simp only []; split
+                  · rfl
+                  · exact update_p_keeps_g _ _ _
+    split
+    · exact gsync_emit _ _ (hgs e _ hg1 h)
+    · exact hgs e _ hg1 h
+  · unfold Enforcer.removeFiltered
+    simp only [hs, Bool.false_eq_true, if_false]
+    rw [linkUpdate_p]
+    have hg1 : (e.store.removeFiltered "p" pt idx vals).1.g = e.store.g := by
+      unfold Store.removeFiltered
+      split
+      · rfl
+      · cases e.store.find "p" pt with
+        | none => rfl
+        | some _ => simp only []; split
+                    · rfl
+                    · exact update_p_keeps_g _ _ _
+    split
+    · exact gsync_emit _ _ (hgs e _ hg1 h)
+    · exact hgs e _ hg1 h
+
+/-- the five internal management calls, on permission rules and on grouping rules -/
 inductive GOp where
   | add (sec pt : String) (rule : Rule)
   | remove (sec pt : String) (rule : Rule)
+  | addMany (sec pt : String) (rules : List Rule)
+  | removeMany (sec pt : String) (rules : List Rule)
+  | removeFiltered (sec pt : String) (idx : Nat) (vals : List String)
 
 def GOp.apply (e : Enforcer) : GOp → Enforcer
   | .add sec pt rule => (e.addPolicy sec pt rule).1
   | .remove sec pt rule => (e.removePolicy sec pt rule).1
+  | .addMany sec pt rules => (e.addPolicies sec pt rules).1
+  | .removeMany sec pt rules => (e.removePolicies sec pt rules).1
+  | .removeFiltered sec pt idx vals => (e.removeFiltered sec pt idx vals).1
 
-/-- the calls the invariant is stated for: section `p` or `g`, and a grouping rule handed to `add` has
+/-- the calls the invariant is stated for: section `p` or `g`, and a grouping rule handed to an addition has
 at least as many fields as the role definition -/
 def GOp.Ok (e : Enforcer) : GOp → Prop
   | .add sec _ rule => sec = "p" ∨ (sec = "g" ∧ ∀ d, e.store.g = [d] → d.arity ≤ rule.length)
   | .remove sec _ _ => sec = "p" ∨ sec = "g"
+  | .addMany sec _ rules => sec = "p" ∨ (sec = "g" ∧ ∀ d, e.store.g = [d] → ∀ r ∈ rules, d.arity ≤ r.length)
+  | .removeMany sec _ _ => sec = "p" ∨ sec = "g"
+  | .removeFiltered sec _ _ _ => sec = "p" ∨ sec = "g"
+
+theorem linkUpdate_flags (x : Enforcer) (c : Bool) (sec pt : String) (ins : Bool) (rules : List Rule) (ret : Res) :
+    (x.linkUpdate c sec pt ins rules ret).1.autoSave = x.autoSave ∧
+    (x.linkUpdate c sec pt ins rules ret).1.autoBuild = x.autoBuild := by
+  unfold Enforcer.linkUpdate
+  split
+  · exact ⟨rfl, rfl⟩
+  · split
+    · exact ⟨rfl, rfl⟩
+    · split <;> exact ⟨rfl, rfl⟩
 
 theorem flags_add (e : Enforcer) (sec pt : String) (rule : Rule) (hs : e.autoSave = false) :
     (e.addPolicy sec pt rule).1.autoSave = false ∧ (e.addPolicy sec pt rule).1.autoBuild = e.autoBuild := by
   unfold Enforcer.addPolicy
   simp only [hs, Bool.false_eq_true, if_false]
-  have hlu : ∀ (x : Enforcer) (c : Bool) (ret : Res), (x.linkUpdate c sec pt true [rule] ret).1.autoSave = x.autoSave ∧
-      (x.linkUpdate c sec pt true [rule] ret).1.autoBuild = x.autoBuild := by
-    intro x c ret
-    unfold Enforcer.linkUpdate
-    split
-    · exact ⟨rfl, rfl⟩
-    · split
-      · exact ⟨rfl, rfl⟩
-      · split <;> exact ⟨rfl, rfl⟩
-  rw [(hlu _ _ _).1, (hlu _ _ _).2]
+  rw [(linkUpdate_flags _ _ _ _ _ _ _).1, (linkUpdate_flags _ _ _ _ _ _ _).2]
   split <;> simp [Enforcer.emit, hs] <;> split <;> simp [hs]
 
 theorem flags_remove (e : Enforcer) (sec pt : String) (rule : Rule) (hs : e.autoSave = false) :
     (e.removePolicy sec pt rule).1.autoSave = false ∧ (e.removePolicy sec pt rule).1.autoBuild = e.autoBuild := by
   unfold Enforcer.removePolicy
   simp only [hs, Bool.false_eq_true, if_false]
-  have hlu : ∀ (x : Enforcer) (c : Bool) (ret : Res), (x.linkUpdate c sec pt false [rule] ret).1.autoSave = x.autoSave ∧
-      (x.linkUpdate c sec pt false [rule] ret).1.autoBuild = x.autoBuild := by
-    intro x c ret
-    unfold Enforcer.linkUpdate
-    split
-    · exact ⟨rfl, rfl⟩
-    · split
-      · exact ⟨rfl, rfl⟩
-      · split <;> exact ⟨rfl, rfl⟩
-  rw [(hlu _ _ _).1, (hlu _ _ _).2]
+  rw [(linkUpdate_flags _ _ _ _ _ _ _).1, (linkUpdate_flags _ _ _ _ _ _ _).2]
   split <;> simp [Enforcer.emit, hs] <;> split <;> simp [hs]
 
-/-- **the graph reflects the stored grouping rules after every history** of single additions and removals
-(auto-build on; the adapter not involved: auto-save off — with auto-save on an accepted call runs the same
-model-side code and a vetoed one changes nothing, see C10) -/
+theorem flags_addMany (e : Enforcer) (sec pt : String) (rules : List Rule) (hs : e.autoSave = false) :
+    (e.addPolicies sec pt rules).1.autoSave = false ∧ (e.addPolicies sec pt rules).1.autoBuild = e.autoBuild := by
+  unfold Enforcer.addPolicies
+  simp only [hs, Bool.false_eq_true, if_false]
+  rw [(linkUpdate_flags _ _ _ _ _ _ _).1, (linkUpdate_flags _ _ _ _ _ _ _).2]
+  split <;> simp [Enforcer.emit, hs] <;> split <;> simp [hs]
+
+theorem flags_removeMany (e : Enforcer) (sec pt : String) (rules : List Rule) (hs : e.autoSave = false) :
+    (e.removePolicies sec pt rules).1.autoSave = false ∧ (e.removePolicies sec pt rules).1.autoBuild = e.autoBuild := by
+  unfold Enforcer.removePolicies
+  simp only [hs, Bool.false_eq_true, if_false]
+  rw [(linkUpdate_flags _ _ _ _ _ _ _).1, (linkUpdate_flags _ _ _ _ _ _ _).2]
+  split <;> simp [Enforcer.emit, hs] <;> split <;> simp [hs]
+
+theorem flags_removeFiltered (e : Enforcer) (sec pt : String) (idx : Nat) (vals : List String) (hs : e.autoSave = false) :
+    (e.removeFiltered sec pt idx vals).1.autoSave = false ∧ (e.removeFiltered sec pt idx vals).1.autoBuild = e.autoBuild := by
+  unfold Enforcer.removeFiltered
+  simp only [hs, Bool.false_eq_true, if_false]
+  rw [(linkUpdate_flags _ _ _ _ _ _ _).1, (linkUpdate_flags _ _ _ _ _ _ _).2]
+  split <;> simp [Enforcer.emit, hs] <;> split <;> simp [hs]
+
+/-- **the graph reflects the stored grouping rules after every history** of the five management calls — single
+and batch additions and removals, filtered removals (auto-build on; the adapter not involved: auto-save off —
+with auto-save on an accepted call runs the same model-side code and a vetoed one changes nothing, see C10) -/
 theorem gsync_history (ops : List GOp) (e : Enforcer) (h : GSync e) (hs : e.autoSave = false) (hb : e.autoBuild = true)
     (hok : ∀ (pre : List GOp) (op : GOp) (post : List GOp), ops = pre ++ op :: post → op.Ok (pre.foldl GOp.apply e)) :
     GSync (ops.foldl GOp.apply e) := by
@@ -393,6 +678,24 @@ theorem gsync_history (ops : List GOp) (e : Enforcer) (h : GSync e) (hs : e.auto
       rcases hop with h1 | h1
       · subst h1; exact gsync_remove_p e h hs pt rule
       · subst h1; exact gsync_remove_g e h hs hb pt rule
+    | addMany sec pt rules =>
+      obtain ⟨f1, f2⟩ := flags_addMany e sec pt rules hs
+      apply ih _ _ f1 (by rw [f2]; exact hb) hnext
+      rcases hop with h1 | ⟨h1, h2⟩
+      · subst h1; exact (gsync_batch_p e h hs pt rules 0 []).1
+      · subst h1; exact gsync_addMany_g e h hs hb pt rules h2
+    | removeMany sec pt rules =>
+      obtain ⟨f1, f2⟩ := flags_removeMany e sec pt rules hs
+      apply ih _ _ f1 (by rw [f2]; exact hb) hnext
+      rcases hop with h1 | h1
+      · subst h1; exact (gsync_batch_p e h hs pt rules 0 []).2.1
+      · subst h1; exact gsync_removeMany_g e h hs hb pt rules
+    | removeFiltered sec pt idx vals =>
+      obtain ⟨f1, f2⟩ := flags_removeFiltered e sec pt idx vals hs
+      apply ih _ _ f1 (by rw [f2]; exact hb) hnext
+      rcases hop with h1 | h1
+      · subst h1; exact (gsync_batch_p e h hs pt [] idx vals).2.2
+      · subst h1; exact gsync_removeFiltered_g e h hs hb pt idx vals
 
 /-- … hence an explicit `build_role_links` at any point of such a history succeeds and leaves every link
 where it was: same edges in every domain (so, by `same_links_same_answers`, the same answers to every
